@@ -28,6 +28,13 @@ def gen_aperture(r, boundary=False):
     theta = r.choice([0.0, 0.0, math.pi / 2, math.pi / 4, r.uniform(-3.2, 3.2), math.pi, -math.pi / 2])
     inner = r.choice([0.5, 0.25, 0.75, 0.875])
     p = {'cx': cx, 'cy': cy, 'size': size, 'ratio': ratio, 'theta': theta, 'inner': inner}
+    if not kind.startswith('circ') and r.random() < 0.3:
+        # the rotation angle arrives as an angular Quantity / Angle in a unit other than radians; the model receives the radian value
+        import astropy.units as u
+        unit = r.choice(['deg', 'deg', 'arcmin', 'angle-deg'])
+        val = r.choice([30.0, 45.0, 90.0, -60.0, r.uniform(-180.0, 180.0)]) * (60.0 if unit == 'arcmin' else 1.0)
+        p['theta_q'] = [val, unit]
+        p['theta'] = float((val * (u.arcmin if unit == 'arcmin' else u.deg)).to(u.radian).value)
     return kind, p
 
 
@@ -36,6 +43,11 @@ def make_aperture(kind, p):
                                     EllipticalAnnulus, RectangularAperture, RectangularAnnulus)
     pos = (p['cx'], p['cy'])
     s, ra, th, inn = p['size'], p['ratio'], p['theta'], p['inner']
+    if p.get('theta_q'):
+        import astropy.units as u
+        from astropy.coordinates import Angle
+        val, unit = p['theta_q']
+        th = Angle(val, 'deg') if unit == 'angle-deg' else val * (u.arcmin if unit == 'arcmin' else u.deg)
     if kind == 'circ':
         return CircularAperture(pos, s)
     if kind == 'circann':
